@@ -44,14 +44,16 @@ type delivery struct {
 }
 
 type scenario struct {
-	r     recipe
-	v     variant
-	bs    *base
-	dels  []delivery
-	cand  *wire.MsgBlock
-	facts string
-	mode  string
-	bip34 *chainhash.Hash
+	op     string // blk | api
+	parent *path  // the candidate's parent path (harness's own fold)
+	r      recipe
+	v      variant
+	bs     *base
+	dels   []delivery
+	cand   *wire.MsgBlock
+	facts  string
+	mode   string
+	bip34  *chainhash.Hash
 }
 
 // plainBlock is a valid coinbase-only block on path p (p is advanced).
@@ -163,6 +165,7 @@ func buildScenario(r recipe) *scenario {
 	}
 	m.f(c, r.arg)
 	sc.cand = c.block()
+	sc.parent = parent
 	sc.mode = c.mode
 	sc.facts = describe(parent, bs.b, sc.cand, v.bip34Hash, s)
 	// a child of the candidate (valid given a valid candidate)
@@ -202,8 +205,14 @@ func buildScenario(r recipe) *scenario {
 	return sc
 }
 
-func (sc *scenario) line() string {
-	return fmt.Sprintf("C01 blk %s %s %s", sc.mode, sc.r.String(), sc.facts)
+func (sc *scenario) line() string { return "C01 " + sc.body() }
+
+func (sc *scenario) body() string {
+	op := sc.op
+	if op == "" {
+		op = "blk"
+	}
+	return fmt.Sprintf("%s %s %s %s", op, sc.mode, sc.r.String(), sc.facts)
 }
 
 // ---------------------------------------------------------------- Exec: the real code
@@ -574,28 +583,100 @@ func (sc *scenario) runOn(in *inst) (string, bool) {
 
 var scMemo = map[string]*scenario{}
 
-func (P) Exec(line string) string {
-	tok := strings.Fields(line)
-	if len(tok) < 4 || tok[0] != "C01" || tok[1] != "blk" {
-		return "bad-op"
+// scenarioOf rebuilds (or fetches) the scenario of the case whose tokens start at tok[0] = op.
+func scenarioOf(tok []string) (*scenario, string) {
+	if len(tok) < 3 || (tok[0] != "blk" && tok[0] != "api") {
+		return nil, "bad-op"
 	}
-	r, ok := parseRecipe(tok[3])
+	r, ok := parseRecipe(tok[2])
 	if !ok {
-		return "bad-op"
+		return nil, "bad-op"
 	}
-	sc := scMemo[tok[3]]
-	delete(scMemo, tok[3])
+	key := tok[0] + ":" + tok[2]
+	sc := scMemo[key]
+	delete(scMemo, key)
 	if sc == nil {
 		sc = buildScenario(r)
+		if sc != nil {
+			sc.op = tok[0]
+		}
 	}
 	if sc == nil {
-		return "bad-op"
+		return nil, "bad-op"
 	}
 	// the facts on the line must be the ones this recipe yields (keeps corpus lines honest)
-	if sc.line() != strings.Join(tok, " ") {
-		return "facts-mismatch"
+	if sc.body() != strings.Join(tok, " ") {
+		return nil, "facts-mismatch"
+	}
+	return sc, ""
+}
+
+func (P) Exec(line string) string {
+	tok := strings.Fields(line)
+	if len(tok) < 2 || tok[0] != "C01" {
+		return "bad-op"
+	}
+	if tok[1] == "par" {
+		return execPar(tok[2:])
+	}
+	sc, e := scenarioOf(tok[1:])
+	if sc == nil {
+		return e
+	}
+	if sc.op == "api" {
+		return sc.api()
 	}
 	return sc.run()
+}
+
+// execPar runs the cases of a `par` line concurrently, each on its own fresh chain instance, started at
+// different offsets; the answers are joined in line order.
+func execPar(tok []string) string {
+	var groups [][]string
+	cur := []string{}
+	for _, t := range tok {
+		if t == "|" {
+			groups = append(groups, cur)
+			cur = []string{}
+		} else {
+			cur = append(cur, t)
+		}
+	}
+	groups = append(groups, cur)
+	scs := make([]*scenario, len(groups))
+	outs := make([]string, len(groups))
+	for i, g := range groups {
+		sc, e := scenarioOf(g)
+		if sc == nil {
+			outs[i] = e
+		}
+		scs[i] = sc
+	}
+	var wg sync.WaitGroup
+	for i, sc := range scs {
+		if sc == nil {
+			continue
+		}
+		wg.Add(1)
+		go func(i int, sc *scenario) {
+			defer wg.Done()
+			defer func() {
+				if r := recover(); r != nil {
+					outs[i] = "panic"
+				}
+			}()
+			time.Sleep(time.Duration(i%4) * 3 * time.Millisecond)
+			in, e := scaffold(sc, "par")
+			if in == nil {
+				outs[i] = e
+				return
+			}
+			defer in.close()
+			outs[i], _ = sc.runOn(in)
+		}(i, sc)
+	}
+	wg.Wait()
+	return strings.Join(outs, " | ")
 }
 
 // ---------------------------------------------------------------- Generate
@@ -612,6 +693,26 @@ func Lines(seed uint64, thorough bool) []string {
 }
 
 func generate(R *core.Rand, thorough bool, emit func(class string, nontrivial bool, line string)) {
+	var parPool []string // bodies of blk cases that may be bundled into concurrent runs
+	defer func() {
+		// `par`: 8 cases per line, each on its own fresh instance, run concurrently
+		n := 6
+		if thorough {
+			n = 40
+		}
+		for k := 0; k < n && len(parPool) >= 8; k++ {
+			var bodies []string
+			seen := map[string]bool{}
+			for len(bodies) < 8 {
+				b := parPool[R.Intn(len(parPool))]
+				if !seen[b] {
+					seen[b] = true
+					bodies = append(bodies, b)
+				}
+			}
+			emit("par", true, "C01 par "+strings.Join(bodies, " | "))
+		}
+	}()
 	ctxs := []string{"tip", "side", "orphan", "fork", "side2", "tmpl", "orphan2", "orphan3", "hdr", "shuffle", "nopow", "restart", "tmpltip"}
 	for vi, v := range variants {
 		for _, m := range mutators {
@@ -631,8 +732,8 @@ func generate(R *core.Rand, thorough bool, emit func(class string, nontrivial bo
 					a = int64(R.Intn(len(m.args)))
 					r := recipe{vi, ctxs[R.Intn(len(ctxs))], R.Intn(2), m.name, a}
 					if sc := buildScenario(r); sc != nil && r.ctx != "tmpltip" {
-						if _, dup := scMemo[r.String()]; !dup {
-							scMemo[r.String()] = sc
+						if _, dup := scMemo["blk:"+r.String()]; !dup {
+							scMemo["blk:"+r.String()] = sc
 							emit("combo/"+r.ctx, true, sc.line())
 						}
 					}
@@ -658,6 +759,14 @@ func generate(R *core.Rand, thorough bool, emit func(class string, nontrivial bo
 						}
 					}
 				}
+				if m.name != "combo" {
+					r := recipe{vi, "tip", R.Intn(2), m.name, a}
+					if sc := buildScenario(r); sc != nil {
+						sc.op = "api"
+						scMemo["api:"+r.String()] = sc
+						emit("api/"+m.name, true, sc.line())
+					}
+				}
 				for _, r := range picks {
 					if r.ctx == "tmpltip" && (m.name == "highhash" || (m.name == "bits" && (a == 0x1d00ffff || a == 0 || a == 0x20800001))) {
 						continue // template check and delivery differ by design on the hash comparison
@@ -669,8 +778,11 @@ func generate(R *core.Rand, thorough bool, emit func(class string, nontrivial bo
 					if sc == nil {
 						continue
 					}
-					scMemo[r.String()] = sc
+					scMemo["blk:"+r.String()] = sc
 					emit(m.name+"/"+r.ctx, m.name != "valid", sc.line())
+					if len(sc.facts) < 4000 && r.ctx != "tmpltip" {
+						parPool = append(parPool, sc.body())
+					}
 				}
 			}
 		}
